@@ -171,6 +171,7 @@ of_linear_binary_code_finish_decoding_with_ml (of_linear_binary_code_cb_t	*ofcb)
 	/* Inject parity symbols following the random order given by permutation_array */
 	for (i = 0 ; i < ofcb->nb_repair_symbols ; i++)
 	{
+		OF_VERIF_EVENT ("ml_perm", ofcb, i, permutation_array[i], 0, 0);
 		if (ofcb->encoding_symbols_tab[ofcb->nb_source_symbols+permutation_array[i]] != NULL)
 		{
 			if (of_linear_binary_code_simplify_linear_system_with_a_symbol (ofcb, ofcb->encoding_symbols_tab[ofcb->nb_source_symbols+permutation_array[i]],
@@ -187,8 +188,10 @@ of_linear_binary_code_finish_decoding_with_ml (of_linear_binary_code_cb_t	*ofcb)
 	if (of_linear_binary_code_create_simplified_linear_system (ofcb) != OF_STATUS_OK)
 	{
 		OF_TRACE_LVL(0, ("Create Simplified Linear System failed\n"))
+		OF_VERIF_EVENT ("ml_simplified", ofcb, ofcb->remain_rows, ofcb->remain_cols, 0, 0);
 		goto failure;
 	}
+	OF_VERIF_EVENT ("ml_simplified", ofcb, ofcb->remain_rows, ofcb->remain_cols, 1, 0);
 #ifdef IL_SUPPORT
 	of_mod2sparse_print_bitmap(ofcb->pchk_matrix_simplified);
 #endif
